@@ -21,6 +21,7 @@ import (
 	"fmt"
 	"reflect"
 	"runtime/debug"
+	"sort"
 
 	"github.com/cloudwego/eino/callbacks"
 	icb "github.com/cloudwego/eino/internal/callbacks"
@@ -418,4 +419,15 @@ func mapToList(m map[string]any) []any {
 		ret = append(ret, v)
 	}
 	return ret
+}
+
+// sortedKeys returns the keys of m in ascending order: where the first offender met decides which error is reported
+// (and sticks), the order must not be that of a map range.
+func sortedKeys[V any](m map[string]V) []string {
+	keys := make([]string, 0, len(m))
+	for k := range m {
+		keys = append(keys, k)
+	}
+	sort.Strings(keys)
+	return keys
 }
